@@ -6,6 +6,8 @@ Driver glue for C23.  Bytes on the wire: lower-case hex, `-` = empty.
       events joined by `,` (`none` = no event): `d:<hex>` dataReceived, `l:done` / `l:lost` connectionLost
       (ConnectionDone / ConnectionLost), `v` deliverBody, `w` request written, `f` request writing failed,
       `a` abort(), `c` cancel() of the request Deferred
+  `C23 runq <head> <persistent> <async> <now|event|never> <quiescent callback raises:0|1> <events>`
+  `C23 runh <head> <persistent> <async> <now|event|never> <events>`: through the holding transport; appends ` fed=<n>`
   → `state=<_state> fires=<F;…|-> body=<makeConnection calls>:<hex of all dataReceived>:<connectionLost reasons;…|->
      exc=<classes escaping entry points;…|-> q=<quiescent callbacks> disc=<0|1> abrt=<0|1> prod=<producing|paused> stopw=<n>`
 -/
@@ -82,8 +84,42 @@ def decEvent (t : String) : Option Event :=
 def decEvents (s : String) : Option (List Event) :=
   if s = "none" then some [] else (s.splitOn ",").mapM decEvent
 
+/-! The harness's holding transport (`_HoldingTransport` in `harness/corr/C23.py`): while the transport is paused the
+bytes of the script are queued instead of delivered; `resumeProducing()` hands the queue over at once.  In the real
+code that happens re-entrantly, as the last statement of `Response._deliverBody_INITIAL` (and of the persistent branch
+of `_finishResponse_WAITING`), which is the same as delivering right after that call returned: this is the schedule
+computed here (the tie checks that it is).  `fed` = number of bytes handed to the protocol. -/
+
+def flush (s : S) : List (List UInt8) → Nat → S × List (List UInt8) × Nat
+  | [], fed => (s, [], fed)
+  | b :: q, fed => if s.paused then (s, b :: q, fed) else flush (dataReceived s b) q (fed + b.length)
+
+def stepHold (st : S × List (List UInt8) × Nat) (e : Event) : S × List (List UInt8) × Nat :=
+  let (s, q, fed) := st
+  match e with
+  | .data b => if s.paused || !q.isEmpty then flush s (q ++ [b]) fed else (dataReceived s b, q, fed + b.length)
+  | .lost r => (connectionLost s r, [], fed)     -- what was still unread is gone with the connection
+  | e => flush (step s e) q fed
+
+def runHold (s : S) (evs : List Event) : S × List (List UInt8) × Nat := evs.foldl stepHold (s, [], 0)
+
 def handle (args : List String) : String :=
   match args with
+  | ["runh", h, p, a, d, evs] =>
+    -- the same script delivered through the holding transport
+    match decBit h, decBit p, decBit a, decEvents evs with
+    | some h, some p, some a, some evs =>
+      if d = "now" || d = "event" || d = "never" then
+        let (s, _, fed) := runHold (init h p a (d = "now")) evs
+        render s ++ " fed=" ++ toString fed
+      else "bad-op"
+    | _, _, _, _ => "bad-op"
+  | ["runq", h, p, a, d, q, evs] =>
+    -- the same with a quiescent callback that raises (q = 1)
+    match decBit h, decBit p, decBit a, decBit q, decEvents evs with
+    | some h, some p, some a, some q, some evs =>
+      if d = "now" || d = "event" || d = "never" then render (run (initQ h p a (d = "now") q) evs) else "bad-op"
+    | _, _, _, _, _ => "bad-op"
   | ["run", h, p, a, d, evs] =>
     match decBit h, decBit p, decBit a, decEvents evs with
     | some h, some p, some a, some evs =>
